@@ -49,6 +49,8 @@ def gen_knobs(rng, profile=None):
         "bytes_fields": rng.random() < 0.3,
         "strategy_objects": rng.random() < 0.25,
         "factory_dialects": rng.random() < 0.2,
+        "partial_strategies": rng.random() < 0.2,
+        "override_fields": rng.random() < 0.3,
         "inherit": rng.random() < 0.5,
         "n_outer": rng.randint(1, 3),
         "n_leaf": rng.randint(1, 2),
@@ -211,6 +213,8 @@ class FamilyBuilder:
             d["date"] = r.choice([None, "slash", "ord", "slash"])
             if self.kn.get("strategy_objects") and r.random() < 0.7:
                 d["date"] = ["obj_slash", "obj_dot"][i % 2]
+            if self.kn.get("partial_strategies") and r.random() < 0.5:
+                d["date"] = r.choice(["de_only_slash", "ser_only_ord"])
             if self.kn.get("distinct_dialects"):
                 d["date"] = ["slash", "ord", None][i % 3]
             for o in ("omit_none", "omit_default", "serialize_by_alias", "namedtuple_as_dict"):
@@ -282,6 +286,15 @@ class FamilyBuilder:
         c = {"name": name, "bases": [base], "mixins": [],
              "fields": self.fields(name.lower() + "_", r.randint(0, 2),
                                    defaults_only=self.has_defaults(base))}
+        if self.kn.get("override_fields") and r.random() < 0.5:
+            # re-declare an inherited defaulted field with another type and a
+            # default_factory (legal: dataclasses keep the field's position)
+            cands2 = [f for f in self.fam().all_fields(base)
+                      if "d" in f and f["t"][0] in ("int", "str", "date") and not f.get("literal")]
+            if cands2:
+                f0 = r.choice(cands2)
+                c["fields"].append({"n": f0["n"], "t": ["list", ["int"]],
+                                    "d": ["l", [["i", 1], ["i", 2]]]})
         if not self.fam().is_mixin(base) and r.random() < 0.3:
             c["mixins"] = self.pick_mixins(force=True)
         if r.random() < 0.3:
@@ -681,7 +694,9 @@ def date_fmt(fam, cname, call_dialect):
 
 
 def render_date(s, fmt):
-    if fmt in ("slash", "obj_slash"):
+    if fmt == "ser_only_ord":
+        return s  # only packing is overridden: inputs stay ISO
+    if fmt in ("slash", "obj_slash", "de_only_slash"):
         return s.replace("-", "/")
     if fmt == "obj_dot":
         y, m, d = s.split("-")
